@@ -1,9 +1,249 @@
-"""C06: exact correspondences for extract_branch_results_with_internals and the structural pit (filled below)."""
+"""C06: exact correspondences for
+   * result_extraction.extract_branch_results_with_internals  (real function, real net, integer branch results)
+   * the structural pipe pit (ELEMENT_IDX, FROM_NODE, TO_NODE) of real nets and of their relabelled twins
+against coq/C06/ModelExtract.v, compared inside Coq."""
+import os
+import sys
+
+import numpy as np
+
+sys.path.insert(0, os.path.dirname(os.path.dirname(os.path.abspath(__file__))))
+from vlib import cz, cnat, cbool, clist  # noqa: E402
+from harness import gen, drive  # noqa: E402
+from harness import c0406_common as cm  # noqa: E402
+from harness import c06_monitors as mon  # noqa: E402
+
+HDR = ("From Coq Require Import ZArith List Bool.\nFrom PP Require Import C06.Model C06.ModelExtract.\n"
+       "Import ListNotations.\nOpen Scope Z_scope.\n")
+SENTINEL = -7
+
+
+def natl(xs):
+    return clist([cnat(int(x)) for x in xs])
+
+
+def multi_section_spec(rng, i):
+    mode = ["shuffled", "sparse", "large", "contig"][i % 4]
+    if i % 2 == 0:
+        sp = gen.gen_net(rng, "heat", label_mode=mode)
+    else:
+        sp = gen.gen_net(rng, "water", label_mode=mode, features={"pi_valve": rng.random() < 0.3})
+    return sp
+
+
+def extract_case(rng, sp):
+    """run the real extract_branch_results_with_internals on integer branch results; returns (coq text, oracle dict)"""
+    import pandapipes  # noqa: F401
+    import pandapipes.idx_branch as ib
+    import pandapipes.idx_node as inode
+    rex = sys.modules["pandapipes.pf.result_extraction"]
+    s = drive.psetup()
+    net = gen.build(sp)
+    if not len(net.pipe) or not np.any(net.pipe.sections.values > 1):
+        return None        # Pipe.extract_results calls the function only if some pipe has internal nodes
+    # some outages so that the connected mask is not all True
+    for i in net.pipe.index:
+        if rng.random() < 0.2:
+            net.pipe.at[i, "in_service"] = False
+    use_numba = rng.random() < 0.3
+    try:
+        drive.stages(net, use_numba=use_numba)
+    except s.PipeflowNotConverged:
+        return None
+    mode = "hydraulics"
+    if rng.random() < 0.4:
+        try:
+            s.identify_active_nodes_branches(net, False)
+            mode = "sequential"
+        except s.PipeflowNotConverged:
+            mode = "hydraulics"
+    L = net["_lookups"]
+    f, t = L["branch_from_to"]["pipe"]
+    bpit, npit = net["_pit"]["branch"], net["_pit"]["node"]
+    nb = len(bpit)
+    br = {"from_nodes": bpit[:, ib.FROM_NODE].astype(np.int32), "to_nodes": bpit[:, ib.TO_NODE].astype(np.int32)}
+    for k in ("p_from", "p_to", "mf_from", "mf_to", "lambda", "reynolds", "dp_frict_loss", "v_mps", "vf", "temp_from",
+              "temp_to", "t_outlet", "v_gas_from", "v_gas_to", "v_gas_mean", "normfactor_from", "normfactor_to"):
+        br[k] = np.array([12.0 * rng.randint(-500, 500) for _ in range(nb)])
+    for c in net.res_pipe.columns:
+        net.res_pipe[c] = float(SENTINEL)
+    rex.extract_branch_results_with_internals(
+        net, br, "pipe", [("p_from_bar", "p_from")], [("t_from_k", "temp_from")], [("p_to_bar", "p_to")],
+        [("t_to_k", "temp_to")], [("lambda", "lambda"), ("reynolds", "reynolds")], [("t_outlet_k", "t_outlet")], [],
+        "pipe_nodes", mode)
+    labels = [int(x) for x in net.pipe.index.values]
+    secs = [int(x) for x in net.pipe.sections.values]
+    idx_pit = cm.as_int_list(bpit[f:t, ib.ELEMENT_IDX], "ELEMENT_IDX")
+    tn = L["node_table"]["t2n"].get("pipe_nodes", None)
+    from_ext = npit[br["from_nodes"][f:t], inode.TABLE_IDX] != tn
+    to_ext = npit[br["to_nodes"][f:t], inode.TABLE_IDX] != tn
+    out = []
+    # hydraulic pass (mask: hydraulics) and heat pass (mask: heat_transfer when the mode computes heat)
+    for (mask_name, cfrom, vfrom, cto, vto, cmean, vmean, clast, vlast) in (
+            ("hydraulics", "p_from_bar", "p_from", "p_to_bar", "p_to", "lambda", "lambda", None, None),
+            ("heat_transfer" if mode == "sequential" else "hydraulics", "t_from_k", "temp_from", "t_to_k", "temp_to",
+             None, None, "t_outlet_k", "t_outlet")):
+        conn = L["branch_active_" + mask_name][f:t]
+        old = [SENTINEL] * len(labels)
+        res = {c: cm.as_int_list(net.res_pipe[c].values, c) for c in (cfrom, cto, cmean, clast) if c}
+        z = [0] * len(idx_pit)
+        txt = ("{| ec_numba := %s; ec_labels := %s; ec_secs := %s; ec_idx_pit := %s; ec_conn := %s; ec_from_ext := %s; "
+               "ec_to_ext := %s; ec_v_from := %s; ec_v_to := %s; ec_v_mean := %s; ec_v_last := %s; ec_old := %s; "
+               "ec_res_from := %s; ec_res_to := %s; ec_res_mean := %s; ec_res_last := %s |}"
+               % (cbool(use_numba), cm.zl(labels), natl(secs), cm.zl(idx_pit), cm.bl(conn), cm.bl(from_ext), cm.bl(to_ext),
+                  cm.zl(br[vfrom][f:t]), cm.zl(br[vto][f:t]),
+                  cm.zl(br[vmean][f:t]) if vmean else cm.zl(z), cm.zl(br[vlast][f:t]) if vlast else cm.zl(z),
+                  cm.zl(old), cm.zl(res[cfrom]), cm.zl(res[cto]),
+                  cm.zl(res[cmean]) if cmean else cm.zl(model_mean_of_zeros(labels, secs, conn)),
+                  cm.zl(res[clast]) if clast else cm.zl(oracle_rows(secs, conn, z, old, last=True))))
+        # the property as a python oracle, used to classify a disagreement
+        bad = None
+        exp_from = oracle_rows(secs, conn, [int(x) for x in br[vfrom][f:t]], old, last=False)
+        exp_to = oracle_rows(secs, conn, [int(x) for x in br[vto][f:t]], old, last=True)
+        if res[cfrom] != exp_from:
+            bad = (cfrom, res[cfrom], exp_from)
+        elif res[cto] != exp_to:
+            bad = (cto, res[cto], exp_to)
+        elif clast and res[clast] != oracle_rows(secs, conn, [int(x) for x in br[vlast][f:t]], old, last=True):
+            bad = (clast, res[clast], oracle_rows(secs, conn, [int(x) for x in br[vlast][f:t]], old, last=True))
+        elif cmean and res[cmean] != oracle_mean(secs, conn, [int(x) for x in br[vmean][f:t]], old):
+            bad = (cmean, res[cmean], oracle_mean(secs, conn, [int(x) for x in br[vmean][f:t]], old))
+        out.append((txt, bad, {"labels": labels, "sections": secs, "connected": [bool(x) for x in conn], "mode": mode}))
+    return out
+
+
+def model_mean_of_zeros(labels, secs, conn):
+    return oracle_mean(secs, conn, [0] * sum(secs), [SENTINEL] * len(labels))
+
+
+def oracle_rows(secs, conn, vals, old, last):
+    out, p = [], 0
+    for r, s in enumerate(secs):
+        q = p + s - 1 if last else p
+        out.append(vals[q] if conn[q] else old[r])
+        p += s
+    return out
+
+
+def oracle_mean(secs, conn, vals, old):
+    out, p = [], 0
+    for r, s in enumerate(secs):
+        if any(conn[p:p + s]):
+            tot = sum(vals[p:p + s])
+            out.append(tot // s if tot % s == 0 else None)
+        else:
+            out.append(old[r])
+        p += s
+    return out
 
 
 def corr_extract(ctx):
-    pass
+    rng = ctx.rng
+    n = 40 if ctx.quick else 800
+    body, meta = [], []
+    for i in range(n):
+        sp = multi_section_spec(rng, i)
+        try:
+            cs = extract_case(rng, sp)
+        except Exception as e:  # noqa: BLE001
+            import traceback
+            ctx.broken("correspondence", "extract_branch_results_with_internals harness", traceback.format_exc()[-700:])
+            return
+        if cs is None:
+            ctx.count("extract_skipped_unsupplied")
+            continue
+        for txt, bad, info in cs:
+            body.append(txt)
+            meta.append((sp, bad, info))
+            unsorted = info["labels"] != sorted(info["labels"])
+            ctx.case({"extract": info}, unsorted and len(set(info["sections"])) > 1)
+            ctx.count("extract_unsorted_labels" if unsorted else "extract_sorted_labels")
+            if bad:
+                col, got, exp = bad
+                ctx.violation({"fn": "extract_branch_results_with_internals", "column": col},
+                              "res_pipe.%s after extraction is %r; every row's own section value gives %r "
+                              "(labels %r, sections %r)" % (col, got, exp, info["labels"], info["sections"]),
+                              {"kind": "extract", "net": sp, "info": info, "observed": got, "expected": exp})
+    n_tot = n_mis = 0
+    size = 80
+    for s0 in range(0, len(body), size):
+        txt = HDR + "Definition cs : list ext_case := [\n%s\n].\nEval vm_compute in (summary ext_case_ok cs).\n" \
+            % ";\n".join(body[s0:s0 + size])
+        trip, out = ctx.coq_counts(txt, "ext_%d" % (s0 // size))
+        if not trip:
+            ctx.broken("correspondence", "extract model (coqc failed)", out[-800:])
+            return
+        nn, m, first = trip[0]
+        n_tot += nn
+        n_mis += m
+        if m and not any(b for _, b, _ in meta[s0:s0 + size]):
+            sp, bad, info = meta[s0 + first]
+            ctx.broken("correspondence", "ModelExtract vs extract_branch_results_with_internals",
+                       "model and implementation differ although the implementation satisfies the row-wise property: %r"
+                       % info)
+    ctx.corr("C06.ModelExtract.place_ext / place_last / place_mean == extract_branch_results_with_internals "
+             "(== row-wise property) on real nets with integer branch results", n_tot, n_mis)
+
+
+# ------------------------------------------------------------------------------------------ structural pit + relabel
+def pit_case(net):
+    import pandapipes.idx_branch as ib
+    s = drive.psetup()
+    s.init_options(net)
+    s.init_all_result_tables(net)
+    s.create_lookups(net)
+    s.initialize_pit(net)
+    L = net["_lookups"]
+    f, t = L["branch_from_to"]["pipe"]
+    bp = net["_pit"]["branch"][f:t]
+    int_start = L["node_from_to"]["pipe_nodes"][0] if "pipe_nodes" in L["node_from_to"] else 0
+    js = [int(x) for x in net.junction.index.values]
+    elm = cm.as_int_list(bp[:, ib.ELEMENT_IDX], "elm")
+    ft = list(zip(cm.as_int_list(bp[:, ib.FROM_NODE], "from"), cm.as_int_list(bp[:, ib.TO_NODE], "to")))
+    txt = ("{| pc_js := %s; pc_tab := {| w_labels := %s; w_from := %s; w_to := %s; w_secs := %s |}; pc_int_start := %s; "
+           "pc_elm := %s; pc_ft := %s |}"
+           % (cm.zl(js), cm.zl(net.pipe.index.values), cm.zl(net.pipe.from_junction.values),
+              cm.zl(net.pipe.to_junction.values), natl(net.pipe.sections.values), cz(int_start), cm.zl(elm), cm.zpl(ft)))
+    return txt, ft
 
 
 def corr_pit_relabel(ctx):
-    pass
+    rng = ctx.rng
+    n = 24 if ctx.quick else 400
+    body = []
+    for i in range(n):
+        prof = ["water", "heat", "gas"][i % 3]
+        sp = gen.gen_net(rng, prof, label_mode=rng.choice(["contig", "shuffled", "sparse", "large"]),
+                         features=None if prof == "heat" else {"pi_valve": False})
+        try:
+            t1, ft1 = pit_case(gen.build(sp))
+            maps = mon.random_maps(rng, sp)
+            sp2 = mon.relabel_spec(sp, maps)
+            t2, ft2 = pit_case(gen.build(sp2))
+        except Exception as e:  # noqa: BLE001
+            ctx.broken("correspondence", "pit capture", repr(e)[:300])
+            return
+        body += [t1, t2]
+        ctx.case({"pit_relabel": sp, "maps": {k: list(v.items()) for k, v in maps.items()}},
+                 any(a != b for m in maps.values() for a, b in m.items()))
+        if ft1 != ft2:
+            ctx.violation({"fn": "create_pit_branch_entries", "column": "FROM_NODE/TO_NODE", "transform": "relabel"},
+                          "FROM_NODE / TO_NODE of the pipe pit change under an injective relabelling",
+                          {"kind": "relabel", "net": sp, "net_b": sp2, "options": {"use_numba": False},
+                           "maps": {t: [[k, v] for k, v in m.items()] for t, m in maps.items()}})
+    n_tot = n_mis = 0
+    size = 100
+    for s0 in range(0, len(body), size):
+        txt = HDR + "Definition cs : list pit_case := [\n%s\n].\nEval vm_compute in (summary pit_case_ok cs).\n" \
+            % ";\n".join(body[s0:s0 + size])
+        trip, out = ctx.coq_counts(txt, "pit_%d" % (s0 // size))
+        if not trip:
+            ctx.broken("correspondence", "pit model (coqc failed)", out[-800:])
+            return
+        nn, m, first = trip[0]
+        n_tot += nn
+        n_mis += m
+        if m:
+            ctx.broken("correspondence", "ModelExtract.pit_of vs the real pipe pit", "case %d differs" % (s0 + first))
+    ctx.corr("C06.ModelExtract.pit_of == ELEMENT_IDX / FROM_NODE / TO_NODE of the real pipe pit, for generated nets "
+             "and their relabelled twins (positions equal across the twins)", n_tot, n_mis)
